@@ -105,9 +105,15 @@ def kerning_font(rng, writer="kern1"):
         langs.append(("DFLT", "dflt"))
         for tag, cls in (("latn", "latin"), ("cyrl", "cyrl"), ("grek", "grek"), ("arab", "arab"), ("hebr", "hebr"), ("dev2", "deva"), ("kana", "kana")):
             if any(n in names for n, _ in REPERTOIRE[cls]) and rng.random() < 0.7:
-                langs.append((tag, "dflt"))
-                if tag == "latn" and rng.random() < 0.3:
-                    langs.append((tag, "TRK "))
+                mine = [(tag, "dflt")]
+                extra_l = {"latn": ["TRK ", "ROM "], "arab": ["URD "], "cyrl": ["SRB "]}.get(tag, [])
+                for lg in extra_l:
+                    if rng.random() < 0.3:
+                        mine.append((tag, lg))
+                # a script's default language system need not be declared first -- or at all
+                if len(mine) > 1 and rng.random() < 0.4:
+                    mine = mine[1:] + ([mine[0]] if rng.random() < 0.6 else [])
+                langs += mine
     fea += [f"languagesystem {t} {l};" for t, l in langs]
     # GSUB alternates
     subs = []
@@ -171,7 +177,18 @@ def kerning_font(rng, writer="kern1"):
            "kerning": [[l, r_, v] for (l, r_), v in entries.items()], "kernScale": 4,
            "groups": [[g["name"], g["members"]] for g in groups], "fea": "\n".join(fea), "lib": lib}
     q = rng.choice([1, 1, 1, 5, 10, 2, 4])
-    return {"ufo": ufo, "q": q, "groupsAbs": groups, "writer": writer}
+    res = {"ufo": ufo, "q": q, "groupsAbs": groups, "writer": writer}
+    # sometimes the font also has attaching anchors and the mark writer runs too: the generated mark feature then creates
+    # every declared language system, whether or not kerning is registered there
+    marks_ = [n for n in names if n in ("acutecomb", "gravecomb", "fatha-ar")]
+    bases_ = [n for n in names if n not in marks_ and glyphs[n]["u"]]
+    if marks_ and bases_ and rng.random() < 0.35:
+        for m in marks_:
+            glyphs[m]["anchors"].append({"n": "_top", "x": 0, "y": 500 * PS})
+        for b in bases_[:3]:
+            glyphs[b]["anchors"].append({"n": "top", "x": 200 * PS, "y": 600 * PS})
+        res["withMarks"] = True
+    return res
 
 
 # ---------------------------------------------------------------------------------------------
@@ -415,11 +432,15 @@ def full_font(rng):
     lines = []
     langs = {"latn": ["TRK ", "ROM "], "arab": ["URD ", "KSH "], "cyrl": ["SRB "], "dev2": ["MAR ", "NEP "], "deva": ["MAR ", "HIN "], "DFLT": []}
     for t in decl:
-        lines.append(f"languagesystem {t} dflt;")
+        mine = [f"languagesystem {t} dflt;"]
         # non-default language systems; the two tags of one script may declare different lists
         for lg in langs.get(t, []):
             if rng.random() < 0.35:
-                lines.append(f"languagesystem {t} {lg.strip()};")
+                mine.append(f"languagesystem {t} {lg.strip()};")
+        # a script's default language system need not be declared first -- or at all
+        if len(mine) > 1 and t != "DFLT" and rng.random() < 0.4:
+            mine = mine[1:] + ([mine[0]] if rng.random() < 0.6 else [])
+        lines += mine
     fea = "\n".join(lines)
     ufo = {"glyphs": glyphs, "order": names, "glyphNames": names,
            "info": {"unitsPerEm": 1000, "ascender": 800, "descender": -200, "familyName": "LayoutTest", "styleName": "Regular"},
